@@ -78,8 +78,19 @@ def cases(ctx):
     # translation validation: the verified bytecode verifier Bcv on the REAL bytecode of every program (driver op `vmrun`
     # appends bcv=ok|<reason>; a refusal is the verdict `eq BCV-REJECTED <reason>`), and the VM model runs that bytecode
     vprogs = [(t, s) for t, s in progs if not t.endswith("-long")]
-    vl = vmrun_lines(ctx, [s for _, s in vprogs])
+    vl = vmrun_lines(ctx, [s for _, s in vprogs], static=[t == "generated" for t, _ in vprogs])
     out += [Case(l, (t, "vm"), extra={"src": s}) for l, (t, s) in zip(vl, vprogs)]
+    # the core fragment (lean/P2sh/Core; theorems statement_balanced, loop_constant_stack, break_continue_balanced): `while` / `loop`
+    # with break / continue under a statement-level `if`, plain and labelled; op `core` compares the functional compiler's code,
+    # lines and constants, its machine (final globals, sp) and the reference evaluation with the real compiler and VM
+    csrcs = [s for s in (c02.core_program(rng, typed=(k % 2 == 0)) for k in range(ctx.scale(1200, 40000))) if "break" in s or "continue" in s]
+    for body in ("if c == 4000 { continue; }", "if c > 4400 { break; }", "if c == 7 { 1; continue out; } else { c }", "loop { if c > 0 { break; } }",
+                 "if c < 0 { break; } else if c == 3 { continue; } else { let q = c; }"):
+        csrcs.append(f"let c = 0;\nout: while c < 4500 {{\n  c = c + 1;\n  {body}\n}}\nc\n")
+    # (the model's machine runs 100 000 steps: fewer rounds for the nested loop)
+    csrcs.append("let c = 0;\nout: while c < 2000 {\n  c = c + 1;\n  let d = 0; L: loop { d = d + 1; if d > 1 { continue out; } }\n}\nc\n")
+    cl = lang_lines(ctx, csrcs, op="core")
+    out += [Case(l, ("core-loops",), extra={"src": s}) for l, s in zip(cl, csrcs)]
     return out
 
 
